@@ -20,6 +20,12 @@ V_UNITS = {
                                                         baseline=dict(trusted=IR_TRUSTED, loops={"into_msg": 0, "into_response": 0})),
 }
 
+BUILDER_TRUSTED = ["Addr", "Binary", "Coin", "verif_to_string", "verif_into", "verif_unwrap_or_default"]
+V_UNITS["exec_builder"] = dict(file="exec_builder.contracts", features=["cosmwasm_1_2"],
+                               baseline=dict(trusted=BUILDER_TRUSTED + ["default"], loops={"ExecutorBuilder:1::new": 0, "ExecutorBuilder:2::with_funds": 0, "ExecutorBuilder:2::funds": 0, "ExecutorBuilder:2::contract": 0, "ExecutorBuilder:3::new": 0, "ExecutorBuilder:3::build": 0}))
+V_UNITS["inst_builder"] = dict(file="inst_builder.contracts", features=["cosmwasm_1_2"],
+                               baseline=dict(trusted=BUILDER_TRUSTED, loops={"InstantiateBuilder:1::new": 0, "InstantiateBuilder:1::with_label": 0, "InstantiateBuilder:1::with_admin": 0, "InstantiateBuilder:1::with_funds": 0, "InstantiateBuilder:1::build": 0, "InstantiateBuilder:1::build2": 0}))
+
 V_ASSUMPTIONS = {
     "utils": [
         "R1: konst::for_range!{i in a..b => body} is unrolled to `let mut i = a; while i < b { body; i += 1; }` (the macro's own expansion is not verified; cross-checked by the bounded Kani run of the unmodified function)",
@@ -28,6 +34,9 @@ V_ASSUMPTIONS = {
         "&str is viewed as Seq<char>; konst compares bytes; UTF-8 byte order = code-point order (only total-orderness is used)",
         "usize is 64-bit; machine arithmetic is checked for overflow by Verus, not treated as mathematical",
         "Verus 0.2026.09.13 and Z3 are trusted",
+    ],
+    "builders": [
+        "V (builders): ExecutorBuilder and InstantiateBuilder impl blocks are extracted verbatim; R7: WasmMsg is a skeleton of cosmwasm-std's enum, Binary/Coin/Addr opaque; R9: `.to_string()` on Addr, `.into()` on the label and `.unwrap_or_default()` on Option<String> are replaced by external_body functions with assumed contracts (result = uninterpreted function of the argument; content-or-empty); R10: `fn f(mut self)` is rewritten to `let mut this = self` with `self` renamed in the body; Binary::default() is an opaque constructor; private fields are read through closed spec accessors written in the prelude",
     ],
     "into_response": [
         "R4: `impl<C> Trait<C> for Ty { fn m(self) }` is rewritten to `impl Ty { fn m<C>(self) }` (each trait has exactly one impl; trait dispatch is dropped)",
@@ -134,6 +143,19 @@ def c14(prop, tier, seed):
     return r
 
 
+def c10(prop, tier, seed):
+    r = REGISTRY["C10_K"](prop, tier, seed)
+    try:
+        obs, infos = run_v_units(prop, ["exec_builder", "inst_builder"])
+    except Undecided as u:
+        # the K harnesses on the same functions stand (bounded sizes); the unbounded V units are undecided
+        obs, infos = [Ob("%s.V.builders" % prop, "V", "undecided", str(u)[:600])], []
+    r["obs"] = obs + r["obs"]; r["infos"] = infos + r["infos"]
+    r["assumptions"] = V_ASSUMPTIONS["builders"] + r["assumptions"]
+    r["explanation"] = "C10 (V, unbounded): Verus proves on the extracted impl blocks of ExecutorBuilder (new / with_funds / funds / contract / ready new / build) and InstantiateBuilder (new / with_label / with_admin / with_funds / build / build2) that every output field equals the corresponding input for ALL addresses, funds vectors, labels, admins, bodies and salts, the others unchanged, label empty when unset, build2 = build plus the salt. " + r["explanation"]
+    return r
+
+
 REGISTRY = {
     "C01": g_prop("C01 on the fixture corpus: for every generated message variant, the recording Serializer sees variant = method name, fields = argument names in order, values = arguments (all values symbolic); constructors build the literal; {own name: own fields} decodes back to an equal message; for every ASCII key up to 12 bytes a message type decodes to variant i only if key = name_i (wildcard-free match = exact variant set).",
                   uncovered=["struct->JSON text (serde_json)", "argument types beyond integer scalars"]),
@@ -157,7 +179,8 @@ REGISTRY = {
                   features=["g_generic"], uncovered=["generic programs outside the fixture", "two where-predicates on the same parameter do not compile on the pinned tree (DESIGN.md §5 item 7) and are not used"]),
     "C17": g_prop("C17 on fx_attr: sv::msg_attr(exec|instantiate, derive(PartialOrd)) yields PartialOrd on exactly ExecMsg and InstantiateMsg and on no other generated type (const assertions decided by rustc); sv::attr(serde(rename)) changes the wire key of that variant only (recording Serializer; the old name is rejected); an argument carrying #[serde(default)] may be absent on the wire and every other argument may not (scripted Deserializer). KT: the msg_attr kind table equals the sv::msg kind table.",
                   features=["g_attr"], uncovered=["attribute placements outside the fixture"], kernels=True),
-    "C10": g_prop("C10: Kani proves on the REAL functions of sylvia/src/types.rs and sylvia/src/builder/instantiate.rs (symbolic scalars, 1-2 byte payloads) that ExecutorBuilder::{new, with_funds, build}, InstantiateBuilder::{new, with_label, with_admin, with_funds, build, build2} and Remote::{new, borrowed, as_ref, executor, update_admin, clear_admin} carry every input to the corresponding output field and leave the others unchanged (label empty when unset); on the fixture corpus the generated Executor methods return a ready builder whose body is the canonical serialisation of the same ExecMsg variant.",
+    "C10": c10,
+    "C10_K": g_prop("C10: Kani proves on the REAL functions of sylvia/src/types.rs and sylvia/src/builder/instantiate.rs (symbolic scalars, 1-2 byte payloads) that ExecutorBuilder::{new, with_funds, build}, InstantiateBuilder::{new, with_label, with_admin, with_funds, build, build2} and Remote::{new, borrowed, as_ref, executor, update_admin, clear_admin} carry every input to the corresponding output field and leave the others unchanged (label empty when unset); on the fixture corpus the generated Executor methods return a ready builder whose body is the canonical serialisation of the same ExecMsg variant.",
                   uncovered=["querier helpers (smart query round trip needs a JSON parser)", "funds beyond one coin; addresses beyond 2 bytes"]),
     "C20": g_prop("C20: Kani proves on the REAL Remote<T> (sylvia/src/types.rs:370-460) for T in {contract, dyn Interface<Error=E>, ()} and both constructors: it serialises (serde data model) as a struct named Remote with exactly one non-skipped member `addr` whose str has the pointer and length of the address (so every byte is the address's, for all addresses up to 6 bytes, without a content loop); a scripted {addr: s} decodes to a handle with as_ref() == s; schema_name() is `Remote` for every T; the three trait impls exist for an unsized T with no impls.",
                   uncovered=["serde_json: one-field struct -> one-member JSON object and str -> JSON string (dependency, assumed)", "addresses longer than 6 bytes"]),
